@@ -293,6 +293,14 @@ TEXTUAL = [
     ("C11", "dict-spec-registered-by-position", "tensorly/tenalg/proximal.py", "                parameters[modes[i]] = list_or_dict_or_float[modes[i]]", "                parameters[i] = list_or_dict_or_float[modes[i]]"),
     ("C06", "parafac-accepted-jump-keeps-old-error", "tensorly/decomposition/_cp.py", "                unnorml_rec_error = new_rec_error\n", "                unnorml_rec_error = unnorml_rec_error\n"),
     ("C18", "numpy-scalar-jump", "tensorly/decomposition/_cp.py", "jump = iteration ** (1.0 / acc_pow)", "jump = np.power(iteration, 1.0 / acc_pow)"),
+    ("C02", "kronecker-reverse-before-skip", "tensorly/tenalg/core_tenalg/_kronecker.py", "    if skip_matrix is not None:\n        matrices = [matrices[i] for i in range(len(matrices)) if i != skip_matrix]\n", "    if reverse:\n        matrices = matrices[::-1]\n        reverse = False\n    if skip_matrix is not None:\n        matrices = [matrices[i] for i in range(len(matrices)) if i != skip_matrix]\n"),
+    ("C02", "mttkrp-weights-twice", "tensorly/tenalg/core_tenalg/mttkrp.py", "    mttkrp = T.dot(unfold(tensor, mode), T.conj(kr_factors))\n    return mttkrp", "    mttkrp = T.dot(unfold(tensor, mode), T.conj(kr_factors))\n    return mttkrp if weights is None else mttkrp * T.reshape(weights, (1, -1))"),
+    ("C02", "einsum-mttkrp-keeps-own-mode", "tensorly/tenalg/einsum_tenalg/mttkrp.py", "    factors = [tl.conj(f) for (i, f) in enumerate(factors) if i != mode]", "    factors = [tl.conj(f) for (i, f) in enumerate(factors)]"),
+    ("C03", "cp-unfolded-weights-twice", "tensorly/cp_tensor.py", "            factors[mode] * weights, T.transpose(khatri_rao(factors, skip_matrix=mode))", "            factors[mode] * weights, T.transpose(khatri_rao(factors, weights=weights, skip_matrix=mode))"),
+    ("C03", "cp-norm-forgets-weights-square", "tensorly/cp_tensor.py", "        norm = norm * (T.reshape(weights, (-1, 1)) * T.reshape(weights, (1, -1)))", "        norm = norm * T.reshape(weights, (-1, 1))"),
+    ("C03", "tucker-to-tensor-core-twice", "tensorly/tucker_tensor.py", None, None),
+    ("C03", "tt-to-tensor-skips-first-core", "tensorly/tt_tensor.py", "    for factor in factors[1:]:", "    for factor in factors[2:]:"),
+    ("C03", "parafac2-slice-forgets-projection", "tensorly/parafac2_tensor.py", "    B_i = T.dot(projections[slice_idx], B)", "    B_i = B"),
     ("C19", "cp-weight-tensor-before-update", "tensorly/regression/cp_regression.py", None, None),
     ("C19", "tucker-vec-from-stale-core", "tensorly/regression/tucker_regression.py", "        self.vec_W_ = tucker_to_vec((G, W))", "        self.vec_W_ = tensor_to_vec(weight_tensor_) if False else tucker_to_vec((G, W[::-1]))"),
     ("C19", "predict-uses-unexposed", "tensorly/regression/tucker_regression.py", "        return T.dot(partial_tensor_to_vec(X), self.vec_W_)", "        return T.dot(partial_tensor_to_vec(X), self.vec_W)"),
